@@ -753,3 +753,126 @@ reg(Contract(
 ))
 IMPORTS["log_mdlogs"] = FuncRef(TIS_PY, "log_mdlogs")
 IMPORTS["select_shoot"] = FuncRef(TIS_PY, "select_shoot")
+
+
+# ------------------------------------------------------------------ select_shoot: dispatch to the configured move with the pinned engine (C09 / C03)
+class SelEngine(EngineObj):
+    """An engine instance as select_shoot sees it: set_mdrun / clean_up / rgen are recorded (ghost), nothing else happens."""
+
+    def __pyvc_copy__(self, memo):
+        memo[id(self)] = self  # identity matters (which instance is handed to the move); its log lives in the ghost state
+        return self
+
+    def pyvc_setattr(self, attr, v, st, ex):
+        if attr != "rgen":
+            raise Unsupported(f"engine.{attr} = ...")
+        st.ghost = dict(st.ghost, eng_log=st.ghost.get("eng_log", []) + [(self.name, "rgen", v)])
+
+    def m_set_mdrun(self, args, kwargs, st, ex, node):
+        st.ghost = dict(st.ghost, eng_log=st.ghost.get("eng_log", []) + [(self.name, "set_mdrun", args[0])])
+        yield st, None
+
+    def m_clean_up(self, args, kwargs, st, ex, node):
+        st.ghost = dict(st.ghost, eng_log=st.ghost.get("eng_log", []) + [(self.name, "clean_up", None)])
+        yield st, None
+
+
+from pyvc.values import Unsupported  # noqa: E402
+
+
+def _move_summary(name, npaths):
+    """The four moves by the clauses PROVED for them above (accept_iff_status_ACC, old_frames_untouched, old_paths_untouched,
+    result shape / trial well formed): restated here as a summary so that select_shoot does not depend on their ghost state."""
+    def summary(ex, st, bound, node):
+        old = st.fork()
+        for key in sys_fields() + ["Path.pp", "Path.pp#len"] + PATH_SCALARS:
+            st.heap[key] = fresh("hv." + key, st.heap[key].sort())
+        na = fresh("alloc", INT)
+        st.assume(na >= st.alloc)
+        st.alloc = na
+        r = z3.Int("r!q")
+        for key in sys_fields() + ["Path.pp", "Path.pp#len"] + PATH_SCALARS:
+            st.assume(z3.ForAll([r], z3.Implies(z3.And(0 <= r, r < old.alloc), z3.Select(st.heap[key], r) == z3.Select(old.heap[key], r))))
+        trials = []
+        for _ in range(npaths):
+            t = Ref("Path", fresh("trial", INT))
+            st.assume(wf_path(st, t))
+            trials.append(t)
+        acc, status = fresh("acc", BOOL), SStr(fresh("status", INT))
+        st.assume(acc == (status.term == S("ACC")))
+        st.ghost = dict(st.ghost, move_calls=st.ghost.get("move_calls", []) + [(name, dict(bound), (acc, trials, status))])
+        yield st, (acc, trials[0] if npaths == 1 else trials, status)
+    return summary
+
+
+def _ss_make(kind):
+    def make(ex, st):
+        engs = {"engine": [SelEngine("engine#0"), SelEngine("engine#1")], "engine0": [SelEngine("engine0#0")]}
+        picked = {}
+        if kind in ("sh", "wf"):
+            e = mk_ens(st, ("R",) if kind == "sh" else ("L",), None, "e1", mc_move=kind)
+            picked[1] = {"ens": e, "traj": mk_path(st, "old1", 1), "eng_idx": {"engine": 1}, "rgen-eng": Opaque("rgen-eng")}
+        else:
+            e0 = mk_ens(st, ("R",), None, "e0", mc_move="sh")
+            e1 = mk_ens(st, ("L",), None, "e1", mc_move="sh")
+            e0["tis_set"]["quantis"] = kind == "quantis"
+            picked[-1] = {"ens": e0, "traj": mk_path(st, "old0", 1), "eng_idx": {"engine0": 0}}
+            picked[0] = {"ens": e1, "traj": mk_path(st, "old1", 1), "eng_idx": {"engine": 1}, "rgen-eng": Opaque("rgen-eng")}
+        st.ghost = dict(st.ghost, engines=engs, picked0={k: dict(v) for k, v in picked.items()})
+        return {"picked": picked, "ENGINES": engs}
+    return make
+
+
+def _ss_post(ctx):
+    g = ctx.st.ghost
+    picked, engs = g["picked0"], g["engines"]
+    calls = g.get("move_calls", [])
+    acc, paths, status = ctx.result
+    out = [("exactly_one_move_is_performed", z3.BoolVal(len(calls) == 1))]
+    if len(calls) != 1:
+        return out
+    name, bound, (macc, mtrials, mstatus) = calls[0]
+    pinned = {k: [engs[e][i] for e, i in p["eng_idx"].items()] for k, p in picked.items()}
+    if len(picked) == 1:
+        (k, p), = picked.items()
+        want = {"sh": "shoot", "wf": "wire_fencing"}[p["ens"]["mc_move"]]
+        out += [
+            ("the_configured_move_is_called", z3.BoolVal(name == want)),
+            ("on_the_ensembles_own_settings", z3.BoolVal(bound.get("ens_set") is ctx.v("picked")[k]["ens"])),
+            ("with_the_old_path_of_that_ensemble", bound.get("path", bound.get("trial_path")).term == p["traj"].term),
+            ("with_the_engine_instance_pinned_for_the_job", z3.BoolVal(bound.get("engine") is pinned[k][0])),
+            ("with_the_ensembles_start_condition", z3.BoolVal(bound.get("start_cond") == p["ens"]["start_cond"])),
+            ("returns_one_path", z3.BoolVal(isinstance(paths, list) and len(paths) == 1 and paths[0] is mtrials[0])),
+        ]
+    else:
+        want = "quantis_swap_zero" if picked[-1]["ens"]["tis_set"]["quantis"] else "retis_swap_zero"
+        e = bound.get("engines", {})
+        out += [
+            ("the_configured_move_is_called", z3.BoolVal(name == want)),
+            ("with_the_picked_ensembles", z3.BoolVal(bound.get("picked") is ctx.v("picked"))),
+            ("with_the_engine_instances_pinned_for_each_ensemble", z3.BoolVal(set(e) == {-1, 0} and all(len(e[k]) == len(pinned[k]) and all(a is b for a, b in zip(e[k], pinned[k])) for k in (-1, 0)))),
+            ("returns_one_path_per_ensemble", z3.BoolVal(isinstance(paths, list) and len(paths) == 2)),
+        ]
+    log = g.get("eng_log", [])
+    used = [x.name for k in picked for x in pinned[k]]
+    out += [
+        ("accept_iff_status_ACC", B(acc) == (unwrap(status, "str") == S("ACC"))),
+        ("returns_the_moves_verdict", z3.And(B(acc) == macc, unwrap(status, "str") == mstatus.term)),
+        ("every_engine_of_the_job_is_prepared_and_cleaned", z3.BoolVal(all((n, "set_mdrun") in [(a, b) for a, b, _ in log] and (n, "clean_up") in [(a, b) for a, b, _ in log] for n in used))),
+        ("no_other_engine_instance_is_touched", z3.BoolVal(all(a in used for a, _, _ in log))),
+        ("the_jobs_engine_stream_is_installed_where_given", z3.BoolVal(all(("rgen-eng" not in picked[k]) or all((x.name, "rgen") in [(a, b) for a, b, _ in log] for x in pinned[k]) for k in picked))),
+        ("pre_existing_frames_untouched", unchanged_below(ctx, sys_fields(), ctx.old.alloc)),
+    ]
+    return [o for o in out if o[1] is not None]
+
+
+reg(Contract(
+    "select_shoot", src=(TIS_PY, "select_shoot"), cases=[Case(k, _ss_make(k)) for k in ("sh", "wf", "swap", "quantis")],
+    ensures=[("select_shoot", _ss_post)], canaries=[("never_accepts", lambda c: z3.Not(B(c.result[0])))],
+    overrides={
+        "shoot": Contract("shoot", params=["ens_set", "path", "engine", "shooting_point", "start_cond"], defaults={"shooting_point": None, "start_cond": ("L",)}, custom=_move_summary("shoot", 1)),
+        "wire_fencing": Contract("wire_fencing", params=["ens_set", "trial_path", "engine", "start_cond"], defaults={"start_cond": ("L",)}, custom=_move_summary("wire_fencing", 1)),
+        "retis_swap_zero": Contract("retis_swap_zero", params=["picked", "engines"], custom=_move_summary("retis_swap_zero", 2)),
+        "quantis_swap_zero": Contract("quantis_swap_zero", params=["picked", "engines"], custom=_move_summary("quantis_swap_zero", 2)),
+    },
+))
